@@ -134,6 +134,9 @@ def integrate_instances(tier, prop):
         for evs in ("n", "T"):
             out.append(dict(id="integrate-euler-%s-dense-N2-two-calls-flip-terminal" % evs, kind="integrate", family="euler", events=[evs], dense=True, N=2,
                             max_reports=2, two_calls=True, flip_terminal=True, budget=b))
+        # stop at a terminal event, continue WITH the same events (a non-terminal one may share the root of the next stop)
+        out.append(dict(id="integrate-euler-nT-dense-N2-continue-with-events", kind="integrate", family="euler", events=["n", "T"], dense=True, N=2,
+                        max_reports=2, continue_with_events=True, budget=b))
         out.append(dict(id="integrate-euler-T-infinite-tf", kind="integrate", family="euler", events=["T"], dense=True, N=2, infinite_tf=True, max_reports=2, budget=b))
         out.append(dict(id="integrate-euler-T-minus-infinite-tf", kind="integrate", family="euler", events=["T"], dense=True, N=2, infinite_tf="neg", max_reports=2, budget=b))
     return out
